@@ -502,6 +502,37 @@ func c12(tier string) int {
 	run.Set("transitions", trans)
 	run.Set("traces_validated_against_impl", trans)
 	run.Set("evaluations", trans+il+idn)
+	// Distributor leg: three and four logs, every assignment in which at most
+	// one log deviates from (valid, 200) at every position - each checkpoint is
+	// PUT under its own log's ID, a log without a usable checkpoint gets none,
+	// in this round and in the following all-valid round (the C15 oracle run
+	// under this property: the distributor must agree with the witness about
+	// which log a checkpoint belongs to).
+	{
+		ud := uni.New(ev.Seed(), 12, nil)
+		origins := []string{"verif.example/d0", "verif.example/d1", "verif.example/d2", "verif.example/d3"}
+		var n int64
+		for _, k := range []int{3, 4} {
+			for pos := 0; pos < k; pos++ {
+				for _, w := range c15WitnessAnswers {
+					for _, d := range []string{"200", "500"} {
+						if !strings.HasPrefix(w, "valid") && d != "200" {
+							continue
+						}
+						wans, dans := make([]string, k), make([]string, k)
+						for i := range wans {
+							wans[i], dans[i] = "valid", "200"
+						}
+						wans[pos], dans[pos] = w, d
+						c15Run(run, ud, origins[:k], wans, dans)
+						n++
+					}
+				}
+			}
+		}
+		run.Set("distributor_assignments", n)
+		run.Add("evaluations", n)
+	}
 	// Concurrent leg: updates of DIFFERENT logs overlapping at storage-operation
 	// granularity (first use / growth of both) - neither may undo the other.
 	c05Concurrent(run, "C12", tier)
